@@ -95,6 +95,13 @@ func runCheck(prop, tier string, overlay map[string][]byte, quiet bool) (int, *C
 			}
 		}
 	}
+	for _, cf := range eng.contractFiles {
+		if pkgSet[cf.PkgPath] {
+			for _, p := range cf.LoadPkgs {
+				pkgSet[p] = true
+			}
+		}
+	}
 	if len(pkgSet) == 0 {
 		fmt.Fprintf(os.Stderr, "gowp: no contracts for property %s\n", prop)
 		return 2, rep
@@ -142,6 +149,11 @@ func runCheck(prop, tier string, overlay map[string][]byte, quiet bool) (int, *C
 				continue
 			}
 			rep.Functions = append(rep.Functions, shortFnName(fn))
+			if os.Getenv("GOWP_VERBOSE") != "" {
+				for a, why := range enc.escaped {
+					fmt.Printf("  escape in %s: %s (%s): %s\n", shortFnName(fn), a.Name(), a.Comment, why)
+				}
+			}
 			for a := range enc.assumps {
 				rep.Assumptions[a] = true
 			}
